@@ -269,8 +269,10 @@ func (r *R) Gen(ctx sdk.Context, g *hx.Rng) string {
 	if len(fis) > 0 {
 		wFeedOp = 1
 	}
+	wBlock := 14
 	if len(open) > 0 {
-		wRespond = 26
+		wRespond = 40
+		wBlock = 7
 	}
 	if len(fis) == 0 {
 		if g.Chance(1, 8) {
@@ -279,7 +281,7 @@ func (r *R) Gen(ctx sdk.Context, g *hx.Rng) string {
 		return r.genCreate(ctx, g, have)
 	}
 	pickFeed := func() feedInfo { return fis[g.Intn(len(fis))] }
-	switch g.Pick(wCreate, 5*wFeedOp, 3*wFeedOp, 5*wFeedOp, wRespond, 14, 1, 1, 3) {
+	switch g.Pick(wCreate, 5*wFeedOp, 3*wFeedOp, 5*wFeedOp, wRespond, wBlock, 1, 1, 3) {
 	case 0:
 		return r.genCreate(ctx, g, have)
 	case 1, 2:
@@ -290,6 +292,9 @@ func (r *R) Gen(ctx sdk.Context, g *hx.Rng) string {
 			case 0:
 				op = "pause_feed"
 			case 2: // keep feeds running most of the time so that batches happen
+				if len(open) > 0 {
+					return r.genEdit(g, fi)
+				}
 				return r.withEnv(ctx, "oracle block "+hx.KV("dt", g.Range(1, 10)))
 			}
 		} else if g.Chance(3, 20) {
